@@ -122,6 +122,12 @@ class Verifier(HeapMaps):
         self.frame.env = self.st.env
         if node.name == "__init__" and self.fi.cls and isinstance(binding.get(names[0]), VEnt):
             self.class_defaults(binding[names[0]])
+        if c.labels.get("prebox_entities"):
+            # entity parameters that the body stores in collections of objects: the object standing for the entity is fixed at entry, so that
+            # the pre-state (old(...)) and the post-state speak of the same object
+            for v_ in binding.values():
+                if isinstance(v_, VEnt):
+                    self.box(v_)
         for cl in c.requires:
             self.assume_clause(cl, spec_env=binding)
         for cl in c.labels.get("entry_axioms", []):
@@ -161,6 +167,9 @@ class Verifier(HeapMaps):
             self.outcomes["raise"] += 1
             self.frame_obligations(old)
             exc = pr.exc
+            if os.environ.get('PYVC_DEBUG_RAISE'):
+                import traceback, sys as _s
+                print('RAISE', exc.cls, self.path_id if hasattr(self,'path_id') else '', file=_s.stderr); traceback.print_exc(file=_s.stderr)
             entry = None
             for e in c.raises:
                 if is_exc_subclass(self.reg, self.src, exc.cls, e.rstrip("+")):
